@@ -19,10 +19,19 @@ def base_read(path):
     return [L.canon_result(x, [1, 1, 1, 1, 1]) for x in r]
 
 
-def run_case(case, path):
-    flags = case['flags']
+def reader_kwargs(case, flags, path):
+    """constructor arguments of one case; returns (kwargs, TimeRange object, the argument objects handed in)"""
     kw = dict(COMMON)
     kw.update(L.flag_kwargs(flags))
+    opt = case.get('options') or {}
+    if opt.get('index') == 'saved':
+        # the access path "an index file saved by an earlier open is loaded"
+        if not os.path.exists(os.path.splitext(path)[0] + '.p1i'):
+            MixedLogReader(path, save_index=True, ignore_index=True, num_threads=1)
+        kw.update(save_index=False, ignore_index=False)
+    for k in ('warn_on_gaps', 'show_progress'):
+        if k in opt:
+            kw[k] = bool(opt[k])
     if case.get('max_bytes') is not None:
         kw['max_bytes'] = case['max_bytes']
     tr = L.make_range(case.get('range'))
@@ -30,10 +39,26 @@ def run_case(case, path):
         kw['time_range'] = tr
     if case.get('types') is not None:
         kw['message_types'] = L.types_arg(case['types'], case.get('types_form'))
-    late = case.get('late_srcs')
     if case.get('srcs') is not None:
-        kw['source_ids'] = set(case['srcs'])
+        kw['source_ids'] = L.srcs_arg(case['srcs'], case.get('srcs_form'))
+    return kw, tr
+
+
+def snapshot(kw):
+    """value of the caller's argument objects (to see that the reader leaves them alone)"""
+    t = kw.get('message_types')
+    s_ = kw.get('source_ids')
+    return [L.range_state(kw.get('time_range')),
+            None if t is None else (repr(type(t).__name__), [int(x) if not isinstance(x, type) else x.__name__ for x in (t if isinstance(t, (set, list, tuple)) else [t])]),
+            None if s_ is None else (type(s_).__name__, sorted(s_) if isinstance(s_, (set, list, tuple)) else s_)]
+
+
+def run_case(case, path):
+    flags = case['flags']
+    kw, tr = reader_kwargs(case, flags, path)
+    late = case.get('late_srcs')
     out = {'id': case['id'], 'range_state': L.range_state(tr)}
+    before = snapshot(kw)
     try:
         r = MixedLogReader(path, **kw)
         if late is not None:
@@ -46,15 +71,16 @@ def run_case(case, path):
         # as seen by a caller that keeps the results (list(reader)): snapshot taken after the whole iteration
         out['res_after'] = [L.canon_result(x, flags) for x in kept]
         out['alias'] = L.aliased(kept, flags)
+        # the options the caller gave are what the reader reports afterwards (internal sampling restores them)
+        out['flags_after'] = [int(bool(getattr(r, n))) for n in L.FLAG_NAMES] if all(hasattr(r, n) for n in L.FLAG_NAMES) else None
     except Exception as e:
         out['err'] = type(e).__name__
         out['msg'] = str(e)[:200]
+    out['inputs_same'] = snapshot(kw) == before
     # shadow run: same filters, every return_* option on, to identify the messages returned (classification only)
     try:
-        kw.update(L.flag_kwargs([1, 1, 1, 1, 1]))
-        if tr is not None:
-            kw['time_range'] = L.make_range(case.get('range'))
-        r = MixedLogReader(path, **kw)
+        kw2, _ = reader_kwargs(case, [1, 1, 1, 1, 1], path)
+        r = MixedLogReader(path, **kw2)
         if late is not None:
             r.filter_in_place(None, source_ids=set(late))
         out['shadow'] = [int(x[3]) for x in r]
@@ -70,7 +96,7 @@ def main():
         for line in open(cases_path):
             case = json.loads(line)
             k = case['logkey']
-            path = os.path.join(logdir, k + '.p1log')
+            path = os.path.join(logdir, k + ('.p1log' if int(k[:2], 16) % 3 else '.bin'))
             extra = {}
             if k not in seen:
                 _, msgs = L.write(path, case['log'])
